@@ -54,7 +54,8 @@ pub fn values16(len: usize) -> Vec<u16> {
 }
 
 pub fn ops_for(fmt: Fmt, thorough: bool) -> Vec<Op> {
-    let mut v = vec![if thorough { Op::Byte255 } else { Op::Flip1 }, Op::Trunc, Op::Win2, Op::Win4, Op::Win8];
+    // the 2-byte window is an addition to the design's operator list: thorough tier only
+    let mut v = if thorough { vec![Op::Byte255, Op::Trunc, Op::Win2, Op::Win4, Op::Win8] } else { vec![Op::Flip1, Op::Trunc, Op::Win4, Op::Win8] };
     if fmt.has_varints() {
         v.push(Op::VarU);
         v.push(Op::VarZ);
